@@ -1,5 +1,6 @@
 import RedisVerif.Model.AntiEntropy
 import RedisVerif.Lemmas.AntiEntropy
+import RedisVerif.Lemmas.AEBytes
 import RedisVerif.Props.C07
 
 /-!
@@ -809,6 +810,104 @@ theorem effective_limit_pos (limit : Nat) : 1 ≤ effectiveLimit true limit ∧ 
     show max limit 1 = limit
     exact Nat.max_eq_left h
 
+/-! ## the bytes fed to SipHash: the `Ideal` assumption is about the 64-bit hash function alone
+
+`Hasher` abstracts three uses of `DefaultHasher`; `sipHasher sip kb` derives all three from ONE
+byte-stream hash `sip` and the byte streams the code builds (`byteStream`: what `canonical_hash`
+writes; a key's bytes + `0xff`; `u64` words little-endian).  The driver instantiates `sip` with
+`Sip.sip13` (SipHash-1-3, zero key) and compares every key hash, value hash, bucket hash and root
+hash with the real ones; the theorems hold for every collision-free `sip`. -/
+
+/-- SipHash-1-3 test vectors (`DefaultHasher::new(); write(bytes); finish()`), kernel-evaluated -/
+theorem sip13_test_vectors :
+    Sip.sip13 [] = 15130871412783076140 ∧ Sip.sip13 [1] = 4952851536318644461
+    ∧ Sip.sip13 [1, 2, 3, 4, 5, 6, 7] = 12812043627018688250
+    ∧ Sip.sip13 [1, 2, 3, 4, 5, 6, 7, 8] = 9821449770987577264
+    ∧ Sip.sip13 (List.range 20) = 7178233520606413056 := by
+  decide
+
+/-- every value of the state is canonical and its strings are UTF-8 (no `0xff` byte) -/
+def ValuesOK (kb : Nat → List Nat) (s : NMap RV) : Prop := ∀ p ∈ s, p.2.WF ∧ StrSafe kb p.2
+
+instance (kb : Nat → List Nat) : DecidablePred (ValuesOK kb) := fun s => by unfold ValuesOK; infer_instance
+
+/-- **C18 (the byte stream is uniquely decodable)**: two canonical UTF-8 values that differ
+    anywhere — stamp, kind, any register / field / count / element / tag, vector clock, expiry,
+    replication factor — feed different BYTES to the value hasher.  A change of `canonical_hash`
+    that makes the stream ambiguous (two variable-length parts without a length or terminator
+    between them, a dropped field, an unsorted container) breaks this theorem once the model
+    follows the code, and the model must follow: `sip13 (byteStream v)` is compared with the real
+    `value_hash` for every value of every run. -/
+theorem byte_stream_injective (kb : Nat → List Nat) (hkb : KbInj kb) (v w : RV) (hv : v.WF) (hw : w.WF)
+    (sv : StrSafe kb v) (sw : StrSafe kb w) (h : byteStream kb v = byteStream kb w) : v = w :=
+  byteStream_inj hkb hv hw sv sw h
+
+/-- … `StrSafe` is necessary: strings are `0xff`-terminated, not length-prefixed (unreachable
+    with Rust `String`s, which are UTF-8) -/
+theorem byte_stream_ff_ambiguous :
+    ffA ≠ ffB ∧ ffA.WF ∧ ffB.WF ∧ byteStream HB.keyStr ffA = byteStream HB.keyStr ffB
+    ∧ ¬ StrSafe HB.keyStr ffA :=
+  byteStream_ff_ambiguous
+
+/-- the driver's string decoder is injective -/
+theorem key_str_injective : KbInj HB.keyStr := keyStr_inj
+
+/-- **the three-use `Ideal` assumption follows from an ideal byte hash** -/
+theorem ideal_sip_hasher (sip : List Nat → Nat) (kb : Nat → List Nat) (hs : SipIdeal sip) (hkb : KbInj kb) :
+    Ideal (sipHasher sip kb) := ideal_sipHasher hs hkb
+
+theorem proj_byteStream_inj {kb : Nat → List Nat} (hkb : KbInj kb) {s t : NMap RV}
+    (hs : ValuesOK kb s) (ht : ValuesOK kb t) (h : proj (byteStream kb) s = proj (byteStream kb) t) : s = t := by
+  unfold proj at h
+  induction s generalizing t with
+  | nil =>
+    cases t with
+    | nil => rfl
+    | cons _ _ => simp at h
+  | cons p ps ih =>
+    cases t with
+    | nil => simp at h
+    | cons q qs =>
+      simp only [List.map_cons, List.cons.injEq, Prod.mk.injEq] at h
+      obtain ⟨⟨hk, hp⟩, hrest⟩ := h
+      have h1 := hs p List.mem_cons_self
+      have h2 := ht q List.mem_cons_self
+      rw [ih (fun x hx => hs x (List.mem_cons_of_mem _ hx)) (fun x hx => ht x (List.mem_cons_of_mem _ hx)) hrest]
+      congr 1
+      exact Prod.ext hk (byteStream_inj hkb h1.1 h2.1 h1.2 h2.2 hp)
+
+/-- **C18 (equal digests iff equal states), at the level of the bytes hashed**: for every
+    collision-free 64-bit byte hash `sip` (never `0`), the digests the code computes — key hash =
+    `sip(key bytes, 0xff)`, value hash = `sip(canonical_hash's bytes)`, bucket / root hashes =
+    `sip(little-endian words)` — are equal iff the states are, for canonical UTF-8 states of any
+    size, any CRDT kinds, any two iteration orders, any depth. -/
+theorem digest_iff_state_eq_bytes (sip : List Nat → Nat) (kb : Nat → List Nat) (hsip : SipIdeal sip)
+    (hkb : KbInj kb) (depth : Nat) (π π' : List Nat) (s t : NMap RV)
+    (hs : NMap.WF s) (ht : NMap.WF t) (vs : ValuesOK kb s) (vt : ValuesOK kb t)
+    (hπ : ValidOrder π s) (hπ' : ValidOrder π' t) :
+    differsFrom (fromState (sipHasher sip kb) true (byteStream kb) depth π s)
+      (fromState (sipHasher sip kb) true (byteStream kb) depth π' t) = false ↔ s = t := by
+  rw [digest_complete (sipHasher sip kb) (byteStream kb) depth π π' s t (ideal_sipHasher hsip hkb)
+    (streamOK_byteStream kb) hs ht hπ hπ']
+  constructor
+  · exact proj_byteStream_inj hkb vs vt
+  · intro h; rw [h]
+
+/-- … in particular for the stream and the string decoder of the current tree (`AE.digest` with
+    `sipHasher sip HB.keyStr`; the driver runs it with `sip = Sip.sip13`) -/
+theorem digest_iff_state_eq_current (sip : List Nat → Nat) (hsip : SipIdeal sip) (depth : Nat)
+    (π π' : List Nat) (s t : NMap RV) (hs : NMap.WF s) (ht : NMap.WF t)
+    (vs : ValuesOK HB.keyStr s) (vt : ValuesOK HB.keyStr t) (hπ : ValidOrder π s) (hπ' : ValidOrder π' t) :
+    differsFrom (digest (sipHasher sip HB.keyStr) depth π s) (digest (sipHasher sip HB.keyStr) depth π' t) = false
+      ↔ s = t :=
+  digest_iff_state_eq_bytes sip HB.keyStr hsip keyStr_inj depth π π' s t hs ht vs vt hπ hπ'
+
+/-- a collision-free byte hash that never returns `0` (non-vacuity of `SipIdeal`) -/
+def idealSip : List Nat → Nat := fun l => enc l + 1
+
+theorem sipIdeal_idealSip : SipIdeal idealSip :=
+  ⟨fun a b h => enc_inj a b (by unfold idealSip at h; omega), fun a => by unfold idealSip; omega⟩
+
 /-! ## non-vacuity -/
 
 -- the hypotheses of the theorems above are satisfiable by non-trivial values
@@ -817,6 +916,18 @@ example : Ideal idealH := ideal_idealH
 example : NMap.WF exA ∧ LwwOnly exA ∧ ValidOrder [2, 1] exA ∧ proj canonicalStream exA ≠ proj canonicalStream stA
     ∧ fromState idealH true canonicalStream 0 [1, 2] exA = fromState idealH true canonicalStream 0 [2, 1] exA := by
   decide
+
+-- the byte-level hypotheses are satisfiable by a non-trivial state: a hash with two fields, a set
+-- with two elements of different lengths (sorted by bytes, not by code), a plain register
+def exBytes : NMap RV :=
+  [(HB.code [107], { crdt := .hash [(HB.code [102], ⟨some [49], ⟨1, 1⟩, false⟩), (HB.code [97, 98], ⟨none, ⟨2, 1⟩, true⟩)],
+                     vc := some [(1, 2)], expiry := some 5000, ts := ⟨2, 1⟩, rf := some 3 }),
+   (HB.code [107, 50], { crdt := .gset [HB.code [122], HB.code [97, 98]], vc := none, expiry := none, ts := ⟨1, 2⟩, rf := none }),
+   (HB.code [107, 51], RV.withValue [0, 255] ⟨3, 1⟩)]
+
+example : NMap.WF exBytes ∧ ValuesOK HB.keyStr exBytes ∧ ValidOrder [HB.code [107, 51], HB.code [107], HB.code [107, 50]] exBytes
+    ∧ SipIdeal idealSip := by
+  refine ⟨by decide, by decide, by decide, sipIdeal_idealSip⟩
 
 -- a sync with limit ≥ population: key 2 diverges, both sides end with the merge
 example :
